@@ -29,6 +29,8 @@ def app_program(draw, failures=True, allow_misbehaving=True):
         prog["bytesio_len"] = draw(st.sampled_from([0, 1, 100, 5000]))
         prog["file_offset"] = draw(st.sampled_from([0, 0, 1, 50]))
         prog["blksize"] = draw(st.sampled_from([8192, 7, 1024]))
+        if draw(st.integers(0, 2)) == 0:
+            prog["short_reads"] = draw(st.sampled_from([1, 100, 1000]))
         total = max(0, prog["bytesio_len"] - min(prog["file_offset"] % 6000, prog["bytesio_len"]))
     else:
         total = sum(len(c) for c in chunks)
